@@ -16,6 +16,8 @@ Theorem c12_mapping fw : mapping_ok fw -> exists j, mm_to_json fw = Ok j /\ mm_f
 Proof. exact (mm_json_roundtrip fw). Qed.
 Theorem c12_field f : jfield_ok f -> field_from_json (field_to_json f) = Ok f.
 Proof. exact (field_json_roundtrip f). Qed.
+Theorem c12_header h : jheader_ok h -> header_from_json (header_to_json h) = Ok h.
+Proof. exact (header_json_roundtrip h). Qed.
 Theorem c12_packet p : jpdesc_ok p -> pdesc_from_json (pdesc_to_json p) = Ok p.
 Proof. exact (pdesc_json_roundtrip p). Qed.
 Theorem c12_rfd f : jrfd_ok f -> exists j, rfd_to_json f = Ok j /\ rfd_from_json j = Ok f.
@@ -58,6 +60,7 @@ Proof. vm_compute. split; reflexivity. Qed.
 Print Assumptions c12_buffer.
 Print Assumptions c12_mapping.
 Print Assumptions c12_field.
+Print Assumptions c12_header.
 Print Assumptions c12_packet.
 Print Assumptions c12_rfd.
 Print Assumptions c12_rule.
